@@ -1,7 +1,7 @@
 (* C02 — property theorems.  Statements only: each is closed by [exact] of a lemma proved in
    coq/C02/, followed by Print Assumptions. *)
 From Coq Require Import ZArith List Bool Sorted.
-From Scenic Require Import C02.Checker C02.CheckerProofs C02.Defaults C02.DefaultsProofs.
+From Scenic Require Import C02.Checker C02.CheckerProofs C02.Defaults C02.DefaultsProofs C02.Basic C02.BasicProofs.
 Import ListNotations.
 
 (* An accepted sample satisfies every active mandatory requirement — for EVERY comparison
@@ -121,3 +121,67 @@ Theorem C02_scene_ok_accepted : forall lt st durs sc w l users u,
   snd (check_with lt st (number 0 l ++ users) (dsample w l u) durs) = Accept.
 Proof. exact scene_ok_accepted. Qed.
 Print Assumptions C02_scene_ok_accepted.
+
+(* ---- round 2 ---------------------------------------------------------------------------------------- *)
+(* The sort of sortedRequirements is STABLE, for every comparison function: a class of elements none of which
+   is strictly smaller than another keeps its list order. *)
+Theorem C02_sort_stable : forall (A : Type) (lt : A -> A -> bool) (p : A -> bool),
+  (forall x y, p x = true -> p y = true -> lt y x = false) ->
+  forall l, filter p (isort lt l) = filter p l.
+Proof. exact (@isort_stable). Qed.
+Print Assumptions C02_sort_stable.
+
+(* For the concrete cost key: the requirements that TIE with a given key (neither strictly smaller by the
+   cross-multiplied comparison, e.g. 1/2 and 2/4, or equal running sums) keep their declaration order. *)
+Theorem C02_ties_keep_order : forall B st q rs,
+  let p := fun r => cost_tie (cost_of (Z.of_nat B) (get st (rid r))) (cost_of (Z.of_nat B) (get st (rid q))) in
+  filter p (isort (key_lt B st) (filter active rs)) = filter p (filter active rs).
+Proof. exact sorted_ties_with_keep_order. Qed.
+Print Assumptions C02_ties_keep_order.
+
+(* and dropping the trailing optional requirements only removes a suffix of the sorted list *)
+Theorem C02_sorted_requirements_prefix : forall lt rs,
+  exists t, isort lt (filter active rs) = sorted_requirements_with lt rs ++ t /\
+            Forall (fun r => optional r = true) t.
+Proof. exact sorted_requirements_prefix. Qed.
+Print Assumptions C02_sorted_requirements_prefix.
+
+(* BasicChecker (scenic.core.sample_checking): accepted samples satisfy every active mandatory requirement,
+   a rejection names an active falsified requirement, and its accept/reject verdict agrees with the weighted
+   checker's for every order / state / clock of the latter and either setting of initialCollisionCheck. *)
+Theorem C02_basic_accept_sound : forall icc rs s,
+  basic_check icc rs s = Accept ->
+  forall r, In r (map b_req rs) -> active r = true -> optional r = false -> s (rid r) = false.
+Proof. exact basic_accept_sound. Qed.
+Print Assumptions C02_basic_accept_sound.
+
+Theorem C02_basic_reject_sound : forall icc rs s k, basic_check icc rs s = Reject k ->
+  exists r, In r (map b_req rs) /\ active r = true /\ rid r = k /\ s k = true.
+Proof. exact basic_reject_sound. Qed.
+Print Assumptions C02_basic_reject_sound.
+
+Theorem C02_basic_accept_iff : forall icc rs s, optional_implied (map b_req rs) s ->
+  (basic_check icc rs s = Accept <-> all_mandatory_hold (map b_req rs) s).
+Proof. exact basic_accept_iff. Qed.
+Print Assumptions C02_basic_accept_iff.
+
+Theorem C02_basic_agrees_with_weighted : forall icc rs s lt st durs,
+  optional_implied (map b_req rs) s ->
+  is_accept (basic_check icc rs s) = is_accept (snd (check_with lt st (map b_req rs) s durs)).
+Proof. exact basic_agrees_with_weighted. Qed.
+Print Assumptions C02_basic_agrees_with_weighted.
+
+Example C02_basic_example :
+  let rs := [mkB (mkReq 0 true true) true false; mkB (mkReq 1 false true) false true;
+             mkB (mkReq 2 false true) false true; mkB (mkReq 3 false true) false true] in
+  let s := fun i => Nat.eqb i 0 || Nat.eqb i 2 in
+  basic_check true rs s = Reject 0 /\ basic_check false rs s = Reject 2 /\
+  basic_check true rs (fun _ => false) = Accept.
+Proof. exact basic_example. Qed.
+
+(* non-vacuity of the stability theorem: three requirements with all-zero buffers tie and stay in order,
+   while a cheaper one moves in front of them *)
+Example C02_stable_example :
+  isort (fun a b : nat * nat => Nat.ltb (fst a) (fst b)) [(2, 0); (1, 1); (2, 2); (1, 3); (2, 4)]%nat
+  = [(1, 1); (1, 3); (2, 0); (2, 2); (2, 4)]%nat.
+Proof. reflexivity. Qed.
